@@ -755,6 +755,9 @@ func init() {
 			registrationRace(c, rt, "g-"+rt)
 		}
 		c.count("ms.registrationRace", int(time.Since(t0).Milliseconds()))
+		for _, rt := range []string{"eds", "cds"} {
+			dumpRace(c, rt)
+		}
 		t0 = time.Now()
 		runAll(c)
 		c.count("ms.schedules", int(time.Since(t0).Milliseconds()))
